@@ -200,6 +200,7 @@ class World:
         get_status calls them (dependency.py 627-661); no DB mutation"""
         import inspect, subprocess
         from doit.dependency import UptodateCalculator
+        from doit.task import result_dep
         tasks = self.tasks()
         task = tasks['T%d' % t]
         res = []
@@ -215,6 +216,12 @@ class World:
                     elif i == 1 and nm == 'values':
                         magic.append(self.dep.get_values(task.name))
                 r = utd(*(magic + args), **kwargs)
+                if isinstance(utd, result_dep) and not getattr(tasks.get(utd.dep_name), 'has_subtask', False):
+                    # the oracle's own reading of what result_dep means (documented rule): true iff the result
+                    # recorded at this task's last successful execution exists and equals the other task's saved
+                    # result now -- not whatever the item object answers
+                    last = self.dep.get_values(task.name).get('_result:%s' % utd.dep_name)
+                    r = last is not None and last == self.dep.get_result(utd.dep_name)
             elif isinstance(utd, str):
                 r = subprocess.call(utd, shell=True, stderr=subprocess.DEVNULL, stdout=subprocess.DEVNULL) == 0
             else:
